@@ -610,6 +610,7 @@ func (w world) RunCase(t *tape.Tape, st *super.Stats) *super.Violation {
 		}
 	case 6: // sequence sharing interners, an early member damaged
 		shared = true
+		sameName := t.Coin()
 		n := 2 + t.Draw(3)
 		for i := 0; i < n; i++ {
 			s := base
@@ -618,7 +619,15 @@ func (w world) RunCase(t *tape.Tape, st *super.Stats) *super.Violation {
 					s = s[:t.Draw(len(s))]
 				}
 			}
-			ins = append(ins, input{fmt.Sprintf("sim%d.yang", i), s})
+			nm := fmt.Sprintf("sim%d.yang", i)
+			if sameName {
+				nm = name // every member of the sequence under ONE name: same name, different content
+			}
+			ins = append(ins, input{nm, s})
+		}
+		if len(ins) >= 2 && t.Rare(3) {
+			// the sequence ends with the complete, undamaged text once more (after its damaged versions went through the same interners)
+			ins = append(ins, input{ins[len(ins)-1].name, base})
 		}
 		inc("fault:shared-interner-sequence")
 	}
